@@ -281,6 +281,72 @@ pub fn run(ctx: &Ctx) {
         }
     }
     let _ = shared(0);
+    // ---- the very first acquisitions of a process, all at once: nothing in this process has asked for a guard yet;
+    // 8 threads released together each take a guard (whatever the library sets up on first use is set up under
+    // that race) - still one holder at a time
+    if ctx.from == 0 && ctx.only.is_none() && !tsan {
+        let idx = 1_700_000_000 + ctx.shard;
+        let class = "first-acquisitions-of-the-process-all-at-once".to_string();
+        out::intent(idx, &class, &J::new().s("crash_sig", "first-use"));
+        static INSIDE: AtomicI64 = AtomicI64::new(0);
+        static OVERLAPS: AtomicU64 = AtomicU64::new(0);
+        static WRONG: AtomicU64 = AtomicU64::new(0);
+        let go = Arc::new(AtomicBool::new(false));
+        let hs: Vec<_> = (0..8usize)
+            .map(|tid| {
+                let go = go.clone();
+                std::thread::spawn(move || {
+                    while !go.load(Ordering::Acquire) {
+                        std::hint::spin_loop();
+                    }
+                    for round in 0..3 {
+                        if (tid + round) % 2 == 0 {
+                            let mut i = InjectorPP::new();
+                            if INSIDE.fetch_add(1, Ordering::SeqCst) != 0 {
+                                OVERLAPS.fetch_add(1, Ordering::SeqCst);
+                            }
+                            let f = TF[tid % 16];
+                            i.when_called(injectorpp::func!(fn (shared)(i32) -> i32)).will_execute_raw(injectorpp::func!(f, fn(i32) -> i32));
+                            for _ in 0..50 {
+                                if shared(0) != 0x100 + (tid % 16) as i32 {
+                                    WRONG.fetch_add(1, Ordering::SeqCst);
+                                }
+                            }
+                            INSIDE.fetch_sub(1, Ordering::SeqCst);
+                            drop(i);
+                        } else {
+                            let p = InjectorPP::prevent();
+                            if INSIDE.fetch_add(1, Ordering::SeqCst) != 0 {
+                                OVERLAPS.fetch_add(1, Ordering::SeqCst);
+                            }
+                            for _ in 0..50 {
+                                if shared(0) != ORIG {
+                                    WRONG.fetch_add(1, Ordering::SeqCst);
+                                }
+                            }
+                            INSIDE.fetch_sub(1, Ordering::SeqCst);
+                            drop(p);
+                        }
+                    }
+                })
+            })
+            .collect();
+        go.store(true, Ordering::Release);
+        let mut died = 0;
+        for h in hs {
+            if h.join().is_err() {
+                died += 1;
+            }
+        }
+        let (ov, wr) = (OVERLAPS.load(Ordering::SeqCst), WRONG.load(Ordering::SeqCst));
+        let d = J::new().n("overlapping_holders_seen", ov).n("wrong_observations", wr).n("threads_that_panicked", died);
+        let sig = if ov > 0 { "two-holders-at-once" } else if wr > 0 { "holder-observed-another-threads-fake" } else if died > 0 { "thread-panicked-while-acquiring" } else { "" };
+        out::outcome(idx, &class, if sig.is_empty() { Verdict::Held } else { Verdict::Violated }, sig, &d);
+        if !sig.is_empty() {
+            out::summary(&J::new().n("configs", 0));
+            std::process::exit(75);
+        }
+    }
     for (idx, &(threads, total, dmode)) in configs.iter().enumerate() {
         let idx = idx as u64;
         if !ctx.mine(idx) {
